@@ -258,11 +258,21 @@ func (c *Ctx) smtInst(o *Obligation) (string, bool) {
 		cands["(+ "+sk+" 1)"] = true
 		cands["(- "+sk+" 1)"] = true
 	}
+	// the loop variables of the enclosing loops (the element a nested loop works on is indexed by
+	// the outer loop's counter, which may be far from the goal in the definition graph)
+	for i, v := range o.CtxInts {
+		if i >= 8 {
+			break
+		}
+		cands[v] = true
+		cands["(+ "+v+" 1)"] = true
+	}
 	for _, t := range slenTerms(goal + " " + strings.Join(ghyps, " ")) {
 		cands[t] = true
 		cands["(- "+t+" 1)"] = true
 	}
 	// integer-valued program variables (loop counters, indices) mentioned by the goal or its guard
+	var allIntVars []string
 	{
 		intSyms := map[string]bool{}
 		defBody := map[string]string{}
@@ -286,6 +296,12 @@ func (c *Ctx) smtInst(o *Obligation) (string, bool) {
 		for _, l := range c.body[:o.Prefix] {
 			scan(l)
 		}
+		for sym := range intSyms {
+			if isProgramVar(sym) {
+				allIntVars = append(allIntVars, sym)
+			}
+		}
+		sort.Strings(allIntVars)
 		text := goal + " " + strings.Join(ghyps, " ") + " " + o.Guard.S
 		n := 0
 		_ = declOrder
@@ -344,6 +360,25 @@ func (c *Ctx) smtInst(o *Obligation) (string, bool) {
 			scanS(d)
 		}
 	}
+	// when the two-binder facts would produce too many instances, pairs of two plain program
+	// variables are left out (the core terms: the goal's skolems and their neighbours, the loop
+	// variables of the enclosing loops, zero)
+	n2 := 0
+	for _, q := range hyps {
+		if len(q.names) == 2 && q.sorts[0] == SInt && q.sorts[1] == SInt {
+			n2++
+		}
+	}
+	big2 := n2*len(cs)*len(cs) > 6000
+	core := map[string]bool{"0": true}
+	for _, sk := range skolems {
+		core[sk], core["(+ "+sk+" 1)"], core["(- "+sk+" 1)"] = true, true, true
+	}
+	for i, v := range o.CtxInts {
+		if i < 8 {
+			core[v], core["(+ "+v+" 1)"] = true, true
+		}
+	}
 	var insts []string
 	for _, q := range hyps {
 		n := len(q.names)
@@ -386,9 +421,25 @@ func (c *Ctx) smtInst(o *Obligation) (string, bool) {
 				insts = append(insts, q.instantiate([]string{v}))
 			}
 		} else {
-			for _, v := range cs {
-				for _, w := range cs {
-					insts = append(insts, q.instantiate([]string{v, w}))
+			if len(skolems) == 2 {
+				// the goal's own pair first (its witness is the one the goal needs)
+				insts = append([]string{q.instantiate([]string{skolems[0], skolems[1]})}, insts...)
+			}
+			if big2 {
+				// too many pairs: pairs with a skolem-derived / loop-variable / length term on at least
+				// one side, and all pairs among those core terms
+				for _, v := range cs {
+					for _, w := range cs {
+						if core[v] || core[w] {
+							insts = append(insts, q.instantiate([]string{v, w}))
+						}
+					}
+				}
+			} else {
+				for _, v := range cs {
+					for _, w := range cs {
+						insts = append(insts, q.instantiate([]string{v, w}))
+					}
 				}
 			}
 		}
@@ -437,6 +488,7 @@ func (c *Ctx) smtInst(o *Obligation) (string, bool) {
 	}
 	// the negated goal: ground instances for an existential goal
 	var goalAsserts []string
+	var emitLate func(w string) // a one-binder existential goal: instance of its negation at w
 	if op, as := splitTop(goal); op == "exists" && len(as) == 2 {
 		names, sorts := parseBinders(as[0])
 		allInt := len(names) <= 2
@@ -462,6 +514,26 @@ func (c *Ctx) smtInst(o *Obligation) (string, bool) {
 				}
 				if strings.Contains(v, "|sk!") || strings.Contains(v, ".t") || strings.HasPrefix(v, "|p.") || v == "0" {
 					wc = append(wc, v)
+					if len(names) == 1 && !strings.HasPrefix(v, "(") && v != "0" && !strings.Contains(v, "|sk!") {
+						// ranging over s[1:] visits s[i+1]: the element two past the loop counter
+						wc = append(wc, "(+ "+v+" 2)")
+					}
+				}
+			}
+			if len(names) == 1 {
+				// every integer program variable (loop counters are often far from the goal in the
+				// definition graph), with the next two positions: one ground instance each
+				have := map[string]bool{}
+				for _, v := range wc {
+					have[v] = true
+				}
+				for _, v := range allIntVars {
+					for _, w := range []string{v, "(+ " + v + " 1)", "(+ " + v + " 2)"} {
+						if !have[w] && len(wc) < 700 {
+							have[w] = true
+							wc = append(wc, w)
+						}
+					}
 				}
 			}
 			body := stripPattern(as[1])
@@ -476,6 +548,7 @@ func (c *Ctx) smtInst(o *Obligation) (string, bool) {
 				for _, v := range wc {
 					emit([]string{v})
 				}
+				emitLate = func(w string) { emit([]string{w}) }
 			} else {
 				for _, v := range wc {
 					for _, w := range wc {
@@ -505,7 +578,15 @@ func (c *Ctx) smtInst(o *Obligation) (string, bool) {
 			gtb.WriteByte(' ')
 		}
 		gt := gtb.String()
+		nw := len(witnesses)
 		flush(ematchInstances(lines, hyps, gt+" "+strings.Join(ghyps, " ")+" "+o.Guard.S))
+		if emitLate != nil {
+			// witnesses of the goal-directed instances (a fact about p[k] fired at the element the
+			// goal reads, p[lo+k]) refute the goal as well
+			for _, w := range witnesses[nw:] {
+				emitLate(w)
+			}
+		}
 	}
 	for _, g := range goalAsserts {
 		b.WriteString(g + "\n")
